@@ -1,6 +1,7 @@
 (* run entry for read-only random access (kind "ro"): val -> val.
    input  = (front opts file supplied queries hdrtab expect)
-     front    : 0 blockstore.NewReadOnly | 1 storage.OpenReadable
+     front    : 0 blockstore.NewReadOnly | 1 storage.OpenReadable | 2 both on the same file (queries
+                has/get/roots only; output (tboth <blockstore result> <storage result>))
      opts     : (whole storeid zeof maxh maxs maxcid codec)
      supplied : tnone | (tgen opts src)   -- index handed to NewReadOnly = GenerateIndex(src, opts)
      queries  : (thas key) (tget key) (tgetsize key) (tkeys) (troots) ...
@@ -46,13 +47,14 @@ Section Run.
         | Err e => Err e
         end
       else Ok None in
+    let run1 (fr : N) (si : option ridx) : val :=
+      match (if fr =? 0 then ro_open hdrdec o file si else sto_open hdrdec o file) with
+      | Err e => VL [VT "openerr"; v_err e]
+      | Ok s => VL [VT "ok"; VL (map (answer fr s) (vL (vnth 4 input)))]
+      end in
     match supplied with
     | Err e => VL [VT "generr"; v_err e]
-    | Ok si =>
-      match (if front =? 0 then ro_open hdrdec o file si else sto_open hdrdec o file) with
-      | Err e => VL [VT "openerr"; v_err e]
-      | Ok s => VL [VT "ok"; VL (map (answer front s) (vL (vnth 4 input)))]
-      end
+    | Ok si => if front =? 2 then VL [VT "both"; run1 0 si; run1 1 None] else run1 front si
     end.
 End Run.
 
@@ -129,9 +131,40 @@ Fixpoint first_fail (front : N) (o : qopts) (roots : list bytes) (bs : list bloc
   | _, _ => Some ("answer-count-mismatch"%string, VL [], VL [])
   end.
 
-(* keys/roots queries carry no key: give check_answer a parseable dummy *)
-Definition prop_ro (input obs : val) : val :=
-  let front := vN (vnth 0 input) in
+(* executable form of ReadOnlyRefine.consistent: sections with equal multihash carry equal bytes *)
+Definition consistentb (bs : list block) : bool :=
+  forallb (fun b1 => forallb (fun b2 =>
+    match cid_parse (fst b1), cid_parse (fst b2) with
+    | Some p1, Some p2 =>
+        negb ((c_mhcode p1 =? c_mhcode p2)%N && bytes_eqb (c_digest p1) (c_digest p2)) || bytes_eqb (snd b1) (snd b2)
+    | _, _ => true
+    end) bs) bs.
+
+Fixpoint val_eqb (a b : val) : bool :=
+  match a, b with
+  | VN x, VN y => N.eqb x y
+  | VB x, VB y => bytes_eqb x y
+  | VT x, VT y => String.eqb x y
+  | VL x, VL y =>
+      (fix go (l1 l2 : list val) : bool :=
+         match l1, l2 with
+         | [], [] => true
+         | u :: l1', v :: l2' => val_eqb u v && go l1' l2'
+         | _, _ => false
+         end) x y
+  | _, _ => false
+  end.
+
+(* first query on which the two front-ends disagree (Get only compared on consistent archives) *)
+Fixpoint first_disagree (cons : bool) (qs a1 a2 : list val) : option val :=
+  match qs, a1, a2 with
+  | q :: qs', x :: a1', y :: a2' =>
+      if (cons || negb (tag_is q "get")) && negb (val_eqb x y) then Some q
+      else first_disagree cons qs' a1' a2'
+  | _, _, _ => None
+  end.
+
+Definition prop_ro1 (front : N) (input obs : val) : val :=
   let o := v_qopts (vnth 1 input) in
   let expect := vnth 6 input in
   if negb (tag_is expect "valid") then VT "ok" else
@@ -156,3 +189,23 @@ Definition prop_ro (input obs : val) : val :=
                    then "identity-getsize-short-circuit" else "" in
       VL [VT "FAIL"; VT clause; VT klass]
   end.
+
+(* keys/roots queries carry no key: prop_ro1 gives check_answer a parseable dummy *)
+Definition prop_ro (input obs : val) : val :=
+  let front := vN (vnth 0 input) in
+  if negb (N.eqb front 2) then prop_ro1 front input obs
+  else if negb (tag_is (vnth 6 input) "valid") then VT "ok"
+  else
+    match prop_ro1 0 input (vnth 1 obs) with
+    | VT _ =>
+      match prop_ro1 1 input (vnth 2 obs) with
+      | VT _ =>
+        match first_disagree (consistentb (vblocks (vnth 2 (vnth 6 input)))) (vL (vnth 4 input))
+                             (vL (vnth 1 (vnth 1 obs))) (vL (vnth 1 (vnth 2 obs))) with
+        | None => VT "ok"
+        | Some _ => VL [VT "FAIL"; VT "frontends-disagree"; VT ""]
+        end
+      | f => f
+      end
+    | f => f
+    end.
